@@ -1,2 +1,40 @@
 //! Facade fragment "source" (see mod.rs): re-exports / wrappers the simulator needs
-//! from crate::source-related code. Owned by the world that uses it.
+//! from crate::source-related code. Owned by world w1c (plain NTP client source).
+//!
+//! Only view types live here; they are filled in by the read-only probe
+//! `source_probe.rs` (child module of `ntp-proto/src/source.rs`).
+
+pub use crate::source::{NtpSource, NtpSourceAction, ProtocolVersion};
+
+/// Read-only snapshot of the private protocol state of an `NtpSource`
+/// (before/after comparisons in the oracles of C08-C12).
+#[derive(Debug, Clone, PartialEq, Eq)]
+pub struct SourceStateView {
+    /// poll exponent of the last request sent
+    pub last_poll: i8,
+    /// minimum poll exponent imposed by the remote (RATE kisses, NTPv5 poll requests)
+    pub remote_min_poll: i8,
+    pub protocol_version: ProtocolVersion,
+    /// raw 8-bit reach register
+    pub reach: u8,
+    pub tries: usize,
+    /// an unauthenticated DENY/RSTR was seen since the last usable answer
+    pub deny_seen: bool,
+    /// a request is awaiting its answer
+    pub pending: bool,
+    /// nanoseconds of validity left for the pending request (negative = expired)
+    pub pending_left_ns: Option<i128>,
+    pub stratum: u8,
+    pub is_nts: bool,
+    pub nts_cookies: Option<usize>,
+}
+
+impl SourceStateView {
+    /// The view with the version-negotiation state blanked (for clauses that are
+    /// about everything *but* version negotiation).
+    pub fn without_version(&self) -> SourceStateView {
+        let mut v = self.clone();
+        v.protocol_version = ProtocolVersion::V4;
+        v
+    }
+}
